@@ -302,12 +302,13 @@ theorem C12_add_results_one_entry_per_path (canon : Key → Key) (batch : List (
 /-- Under uniqueness the totals of a tree-shaped report count every file once: what a directory's
 total adds up (one summand per record below it) equals the sum over the files listed below it. -/
 theorem C12_totals_count_once (rep : List Rec) (inDir : Bytes → Bool)
-    (h : (rep.map (·.rel)).Nodup) : dirTotal inDir rep = listedTotal inDir rep := by
+    (h : (rep.map Rec.treePath).Nodup) : dirTotal inDir rep = listedTotal inDir rep := by
   unfold listedTotal; rw [shown_of_nodup rep h]
 
 /-- pairwise distinct paths are what a tree-shaped writer needs to show every record: nothing is
 replaced by a later record of the same name -/
-theorem C12_shown_all_of_unique (rep : List Rec) (h : (rep.map (·.rel)).Nodup) : shown rep = rep :=
+theorem C12_shown_all_of_unique (rep : List Rec) (h : (rep.map Rec.treePath).Nodup) :
+    shown rep = rep :=
   shown_of_nodup rep h
 
 /-- The same, instantiated with the covdir writer (`Stats.covdir`, model of `output_covdir`, tied to
@@ -318,7 +319,7 @@ files the report lists, each once. -/
 theorem C12_covdir_root_counts_each_file_once (rep : List Rec) (rs : List Stats.FileIn)
     (t : Stats.CDRoot) (hcov : rs.map (·.cov) = rep.map (·.cov)) (h : Stats.covdir rs = .ok t) :
     t.stats.total = dirTotal (fun _ => true) rep ∧
-      ((rep.map (·.rel)).Nodup → t.stats.total = listedTotal (fun _ => true) rep) := by
+      ((rep.map Rec.treePath).Nodup → t.stats.total = listedTotal (fun _ => true) rep) := by
   have hroot : t.stats.total = dirTotal (fun _ => true) rep := by
     obtain ⟨rfl, h0⟩ := Stats.covdir_ok h
     rw [Stats.covdirTree_root rs h0]
